@@ -431,7 +431,9 @@ def check_C12(tier):
         obs += E.hits_to_obs("R12.4", R4, h, n)
         rep.floor("%s: wrapping_* sites in bigint" % cfg, n, 3)
         rep.add(cfg, obs)
-    ecl = ["default"] if tier == "quick" else ["default", "compact", "nostd", "nostd_compact"]
+    ecl = ["default", "alloc"] if tier == "quick" else F.ALL_CONFIGS
+    if os.environ.get("MLX_ONLY_CONFIG"):
+        ecl = os.environ["MLX_ONLY_CONFIG"].split(",")
     jobs = []
     for c in ecl:
         f0 = fx.get((c, "rel")) or F.build(c, "rel")
@@ -442,7 +444,7 @@ def check_C12(tier):
     efx = F.build_many([(c, "rel") for c in ecl])
     _e4_report(rep, "C12", results, lambda j: "%s/%s big-integer layer" % (j["config"], j["mode"]),
                {"%s/%s big-integer layer" % (c, m): efx[(c, "rel")] for c in ecl for m in ("dbg", "rel")},
-               fn_filter=lambda o: o["fn"].startswith(("minimal_lexical::bigint::", "minimal_lexical::stackvec::")), floor_per_group=30)
+               fn_filter=lambda o: o["fn"].startswith(("minimal_lexical::bigint::", "minimal_lexical::stackvec::", "minimal_lexical::heapvec::")), floor_per_group=30)
     hw, _ = E.r_wrapping_arith(fixture, "bad::", set())
     h, _ = E.r_dropped_failure(fixture)
     ctl = [E.control_obs("R12.1", R, h, "ctl_dropped_failure"), E.control_obs("R12.4", R4, [E.Hit(x.fn.replace("bad::", ""), x.what) for x in hw], "ctl_wrapping_limb")]
@@ -547,11 +549,11 @@ def _root_jobs(cfgl, modes_models, roots=("root_f64", "root_f32")):
     return [{"config": c, "mode": m, "model": mod, "kind": "root", "target": r} for c in cfgl for (m, mod) in modes_models for r in roots]
 
 
-def _e4cl(tier, quick=("default",)):
+def _e4cl(tier, quick=("default", "compact", "alloc")):
     """configurations for the whole-program E4 runs; MLX_ONLY_CONFIG=<cfg>[,<cfg>] overrides (triage aid, never used by registered commands)"""
     if os.environ.get("MLX_ONLY_CONFIG"):
         return os.environ["MLX_ONLY_CONFIG"].split(",")
-    return list(quick) if tier == "quick" else E4_CONFIGS
+    return list(quick) if tier == "quick" else F.ALL_CONFIGS
 
 
 def check_C04(tier):
@@ -574,9 +576,11 @@ def check_C04(tier):
         rep.add(c + " heap capacity", E.hits_to_obs("R04.h", RH, h, n))
         rep.floor("%s: HeapVec constructors reachable" % c, n, 1)
     rep.analysed["configurations"] = cl
-    rep.analysed["alloc_configurations_structural_rule_only"] = acl
+    rep.analysed["alloc_configurations_with_heap_capacity_rule"] = acl
     rep.note("release builds: every `+ - * <<` that carries an Assert(Overflow) in the debug MIR is the same operator in release; "
-             "a proven Assert is also the proof that it cannot wrap. The alloc configurations (HeapVec over Vec) are not analysed by E4.")
+             "a proven Assert is also the proof that it cannot wrap. In the alloc configurations alloc::vec::Vec is summarised (mlxsa/absint/summaries.py: "
+             "length / capacity / initialised-prefix cells, reallocation gives a fresh capacity); the heap vector has no hard length bound, so the sites "
+             "that need len <= BIGINT_LIMBS are audited there (audit entries with only=alloc).")
     return rep.finish(
         "other",
         "No panic-capable terminator is reachable from parse_float::<f32|f64> for valid input: the whole monomorphic program (debug-assertions + "
@@ -603,7 +607,7 @@ def check_C08(tier):
         inv = E.unsafe_inventory(v)
         names = sorted(set(E.nz(x[2]) for x in inv if x[0] == "call"))
         rep.analysed.setdefault("unsafe_inventory", {})[c] = {"sites": len(inv), "unsafe_callees": names}
-        rep.floor("%s: unsafe operation sites in the library" % c, len(inv), 25)
+        rep.floor("%s: unsafe operation sites in the library" % c, len(inv), 15 if "alloc" in c else 25)
         hd = [s for s in v.structs if s["has_drop"]]
         rep.add(c + " drop", [K.Ob("no user Drop impl touches raw memory", not hd, "types with Drop: %s" % [s["path"] for s in hd],
                                    "R08.3:panics unwind through no user Drop (StackVec has none)")])
@@ -626,7 +630,7 @@ def _stackvec_entries(f):
         d = b.get("dpath", "")
         if b["kind"] == "Closure" or b["unsafe"]:
             continue
-        if d.startswith("minimal_lexical::stackvec::") or d in ("minimal_lexical::bigint::normalize", "minimal_lexical::bigint::shl_limbs",
+        if d.startswith(("minimal_lexical::stackvec::", "minimal_lexical::heapvec::")) or d in ("minimal_lexical::bigint::normalize", "minimal_lexical::bigint::shl_limbs",
                                                                  "minimal_lexical::bigint::shl_bits", "minimal_lexical::bigint::shl",
                                                                  "minimal_lexical::bigint::small_add_from", "minimal_lexical::bigint::small_mul",
                                                                  "minimal_lexical::bigint::large_add_from", "minimal_lexical::bigint::long_mul",
@@ -641,7 +645,9 @@ FALLIBLE_VEC_OPS = ("try_push", "try_extend", "try_resize")
 
 def check_C13(tier):
     rep = Report("C13", tier)
-    cl = ["default"] if tier == "quick" else ["default", "compact", "nostd", "nostd_compact"]
+    cl = ["default", "alloc"] if tier == "quick" else F.ALL_CONFIGS
+    if os.environ.get("MLX_ONLY_CONFIG"):
+        cl = os.environ["MLX_ONLY_CONFIG"].split(",")
     modes = [("dbg", "arbitrary"), ("rel", "arbitrary")]
     fx = F.build_many([(c, "rel") for c in cl])
     jobs = []
@@ -650,13 +656,14 @@ def check_C13(tier):
             for m, mod in modes:
                 jobs.append({"config": c, "mode": m, "model": mod, "kind": "fn", "target": d})
         # a failed push / extend / resize leaves the vector unchanged (post-condition on the exits returning None)
-        for meth in FALLIBLE_VEC_OPS:
+        # (the heap vector's push / extend / resize cannot fail)
+        for meth in FALLIBLE_VEC_OPS if "alloc" not in c else ():
             for m, mod in modes:
                 jobs.append({"config": c, "mode": m, "model": mod, "kind": "fn", "target": "minimal_lexical::stackvec::{impl#0}::" + meth,
                              "pre": "pristine", "post": "failure-unchanged"})
     results = run_jobs(jobs)
     n_fu = sum(1 for r in results for res in r.get("results", []) for o in res["obs"] if o["kind"] == "post:a failed operation leaves the vector unchanged")
-    rep.floor("failure-leaves-vector-unchanged post-conditions", n_fu, len(FALLIBLE_VEC_OPS) * len(modes) * len(cl))
+    rep.floor("failure-leaves-vector-unchanged post-conditions", n_fu, len(FALLIBLE_VEC_OPS) * len(modes) * len([c for c in cl if "alloc" not in c]))
     # entries without a monomorphic instance are reported, not failed: nothing in the build can call them
     missing = sorted(set(r["job"]["target"] for r in results if "error" in r and "no instance" in r["error"]))
     results2 = [r for r in results if not ("error" in r and "no instance" in r["error"])]
@@ -667,27 +674,29 @@ def check_C13(tier):
     for c in cl:
         v = E.lib_view(fx[(c, "rel")])
         st = {x["path"]: x for x in v.structs}
-        sv = st.get("stackvec::StackVec")
+        sname, mod_ = ("heapvec::HeapVec", "heapvec::") if "alloc" in c else ("stackvec::StackVec", "stackvec::")
+        sv = st.get(sname)
         obs = []
         if sv is None:
-            obs.append(K.Ob("StackVec struct present", False, "no struct stackvec::StackVec", "R13.1"))
+            obs.append(K.Ob("%s struct present" % sname, False, "no struct %s" % sname, "R13.1"))
         else:
             for fld in sv["fields"]:
-                obs.append(K.Ob("field StackVec.%s is private to its module" % fld["name"], fld["vis"].startswith("Restricted"), fld["vis"],
-                                "R13.1:the representation (data, length) is not visible outside module stackvec, so only the analysed writers can break the invariant"))
-            wr = E.field_writers(v, "stackvec::StackVec")
-            outside = sorted(k for k in wr if not k.startswith("stackvec::"))
-            obs.append(K.Ob("direct writers of StackVec fields live in module stackvec", not outside, "writers: %s" % sorted(wr),
-                            "R13.1:every function assigning data/length directly is a method of StackVec"))
+                obs.append(K.Ob("field %s.%s is private to its module" % (sname.split("::")[1], fld["name"]), fld["vis"].startswith("Restricted"), fld["vis"],
+                                "R13.1:the representation (data, length) is not visible outside its module, so only the analysed writers can break the invariant"))
+            wr = E.field_writers(v, sname)
+            outside = sorted(k for k in wr if not k.startswith(mod_))
+            obs.append(K.Ob("direct writers of %s fields live in module %s" % (sname.split("::")[1], mod_[:-2]), not outside, "writers: %s" % sorted(wr),
+                            "R13.1:every function assigning the representation fields directly is a method of the vector type"))
         rep.add(c + " encapsulation", obs)
     rep.analysed["configurations"] = cl
     rep.analysed["entry_points"] = sorted(set(j["target"] for j in jobs))
-    rep.note("NOT decided: element-wise equality with a reference sequence, and that compare/eq order like the stored integers. "
-             "HeapVec delegates to Vec (its own invariant); not analysed")
+    rep.note("NOT decided: element-wise equality with a reference sequence (e.g. that resize fills with the given value), and that compare/eq "
+             "order like the stored integers. Heap back-end: alloc::vec::Vec is summarised (length, capacity and initialised-prefix cells; a growth "
+             "that may reallocate gets a fresh capacity and forgets initialisation beyond the new length); INV there is length <= initialised prefix <= capacity")
     return rep.finish(
         "other",
         "Representation invariant INV(v) = (length <= capacity and slots [0, length) initialised) is inductive over the whole safe API: every "
-        "non-unsafe function of module stackvec and every friend that writes through vector pointers (bigint::normalize/shl_bits/shl_limbs/shl/"
+        "non-unsafe function of module stackvec (heapvec in the alloc configurations) and every friend that writes through vector pointers (bigint::normalize/shl_bits/shl_limbs/shl/"
         "small_mul/small_add_from/large_add_from/long_mul/large_mul/pow/from_u64) is analysed standalone from EVERY state satisfying INV with all other "
         "arguments unconstrained (preconditions of audit/contracts.py only), in debug and release MIR: all raw accesses in bounds, all raw reads "
         "below the initialised prefix, slices expose exactly [0, length), INV holds at every exit. Field privacy (from tcx.visibility) closes the "
